@@ -88,6 +88,13 @@ Fixpoint parse_value (fuel : nat) (stops : list str) (ts : list tok) : pres (lis
     end
   end.
 
+(* Variable.parse / Mixin.parse_args: the blank between a value and the ';' ',' ')' that ends it is not part of the value *)
+Definition strip_trailing_blank (v : list vtok) : list vtok :=
+  match rev v with
+  | VT [" "] :: r => rev r
+  | _ => v
+  end.
+
 (* ---- mixin parameter and argument lists: after '(' up to ')' ---- *)
 Fixpoint parse_args (fuel : nat) (ts : list tok) : pres (list (list vtok) * list tok) :=
   match fuel with
@@ -99,8 +106,8 @@ Fixpoint parse_args (fuel : nat) (ts : list tok) : pres (list (list vtok) * list
         else
           pbind (parse_value f [$"t_comma"; $"t_semicolon"; $"t_pclose"] ts) (fun '(v, imp, stop, rest) =>
             if imp then PNoModel $"!important in an argument"
-            else if str_eqb stop ($"t_pclose") then POk ([v], rest)
-            else pbind (parse_args f (skip_ws rest)) (fun '(more, rest') => POk (v :: more, rest')))
+            else if str_eqb stop ($"t_pclose") then POk ([strip_trailing_blank v], rest)
+            else pbind (parse_args f (skip_ws rest)) (fun '(more, rest') => POk (strip_trailing_blank v :: more, rest')))
     | [] => PSyntax $"arguments not closed"
     end
   end.
@@ -120,8 +127,8 @@ Fixpoint parse_params (fuel : nat) (ts : list tok) : pres (list (str * option (l
               if is_ty ($"t_colon") s then
                 pbind (parse_value f [$"t_comma"; $"t_semicolon"; $"t_pclose"] r1) (fun '(v, imp, stop, rest) =>
                   if imp then PNoModel $"!important in a default"
-                  else if str_eqb stop ($"t_pclose") then POk ([(tval t, Some v)], rest)
-                  else pbind (parse_params f (skip_ws rest)) (fun '(more, rest') => POk ((tval t, Some v) :: more, rest')))
+                  else if str_eqb stop ($"t_pclose") then POk ([(tval t, Some (strip_trailing_blank v))], rest)
+                  else pbind (parse_params f (skip_ws rest)) (fun '(more, rest') => POk ((tval t, Some (strip_trailing_blank v)) :: more, rest')))
               else if is_ty ($"t_pclose") s then POk ([(tval t, None)], r1)
               else if is_ty ($"t_comma") s || is_ty ($"t_semicolon") s then
                 pbind (parse_params f (skip_ws r1)) (fun '(more, rest') => POk ((tval t, None) :: more, rest'))
@@ -192,7 +199,7 @@ Definition p_vardecl (fuel : nat) (rec : prec) (t : tok) (r : list tok) : pres (
   | c :: r1 =>
       if is_ty ($"t_colon") c then
         pbind (parse_value fuel [$"t_semicolon"] r1) (fun '(v, imp, _, rest) =>
-          if imp then PNoModel $"!important variable" else p_after rec (NVar (tval t) v) rest)
+          if imp then PNoModel $"!important variable" else p_after rec (NVar (tval t) (strip_trailing_blank v)) rest)
       else PNoModel $"variable at statement start"
   | [] => PSyntax $"variable at statement start"
   end.
